@@ -8,7 +8,7 @@
     2^7 option vectors.  A trace is the list of results of successive calls, each result carrying token kind, value,
     [line_num] and [_last_was_cr] after the call, or the error site with its line; it ends at the first error. *)
 From Coq Require Import List NArith ZArith Bool.
-From SV Require Import Text.Str Text.Prog Text.ProgProofs Text.Tokenizer Text.TokenizerProofs.
+From SV Require Import Text.Str Text.Prog Text.ProgProofs Text.Tokenizer Text.TokenizerProofs Text.KvErrModel Text.KvErrProofs.
 Import ListNotations.
 
 (** Generic: NO reader program can tell a chunked source from the flat string it denotes — same result, and the
@@ -89,3 +89,46 @@ Theorem c03_example :
   = [RTok STRING [97]%N 1 false; RTok NEWLINE [10]%N 2 true; RTok COMMENT [120]%N 2 false; RTok STRING [98]%N 2 false;
      RTok EOF [] 2 false].
 Proof. vm_compute. split; reflexivity. Qed.
+
+(** ---- "KeyValError and nothing else" for [Keyvalues.parse] (exception-level model Text/KvErrModel.v) ----
+    [cfg] records how the source guards each indexing site of the parser (regenerated from keyvalues.py on every run;
+    the check discharges [cfg_safe gen_kcfg = true] field by field).  For EVERY token stream the parser can see through
+    its tokenizer, every caller-supplied flag mapping, every option vector and whatever error the tokenizer ends with:
+    the parser returns, or raises KeyValError — never an exception of another type. *)
+Theorem c03_kvparse_only_keyvalerror : forall cfg ko cf flags defaults fin,
+  cfg_safe cfg = true -> forall ts s, parse_tokens cfg ko cf flags defaults fin ts <> OForeign s.
+Proof. exact no_foreign. Qed.
+
+(** Site by site: a foreign exception starting at site [s] needs the guard of exactly that site to be missing (and the
+    unguarded [cur_block_contents[-1]] of the "block expected" branch is never reached with an empty list). *)
+Theorem c03_kvparse_foreign_needs_missing_guard : forall cfg ko cf flags defaults fin ts s,
+  parse_tokens cfg ko cf flags defaults fin ts = OForeign s -> site_guard cfg s = false.
+Proof. exact foreign_needs_missing_guard. Qed.
+
+(** Composition with the tokenizer model: [Keyvalues.parse(text)] for any text: the tokenizer part does not run out
+    of fuel and ends in EOF or one of its error values (raised with error_type = KeyValError); the parser part never
+    leaves with a foreign exception. *)
+Theorem c03_kvparse_text_typed : forall T cfg ko ae flags defaults, cfg_safe cfg = true -> ops_no_eof T = true ->
+  forall text,
+  let tr := split_trace (tokens_flat T (kv_tok_opts ae) (S (length text)) (S (length text)) 1 false text) in
+  snd tr <> Some RFuel /\ forall s, kv_parse_text T cfg ko ae flags defaults text <> OForeign s.
+Proof. exact kv_parse_text_typed. Qed.
+
+(** The guards are not decoration (these are the shapes the pinned tree had before the fixes, and seeded fault c03_2):
+    an empty flag with an index test, a flagged keyvalue after a skipped block, a skipped block in single-block mode. *)
+Definition all_guarded : kcfg := {| bang_total := true; guard_replace_block := true; guard_replace_leaf := true;
+  guard_single_root := true; close_guarded := true |}.
+Definition ko_default : kopts := {| newline_keys := false; newline_values := true; single_line := false; single_block := false |}.
+Theorem c03_kvparse_unguarded_refuted :
+  let S_ := (STRING, [97]%N) in let NL_ := (NEWLINE, [10]%N) in
+  let run c k ts := parse_tokens c k (fun x => [x]) [] [] None ts in
+  run {| bang_total := false; guard_replace_block := true; guard_replace_leaf := true; guard_single_root := true; close_guarded := true |}
+      ko_default [S_; S_; (PROP_FLAG, []); NL_] = OForeign F_BANG
+  /\ run {| bang_total := true; guard_replace_block := true; guard_replace_leaf := false; guard_single_root := true; close_guarded := true |}
+      ko_default [S_; (PROP_FLAG, [120]%N); NL_; (BRACE_OPEN, []); (BRACE_CLOSE, []); S_; S_; (PROP_FLAG, [33; 120]%N); NL_] = OForeign F_REPLACE_LEAF
+  /\ run {| bang_total := true; guard_replace_block := true; guard_replace_leaf := true; guard_single_root := false; close_guarded := true |}
+      {| newline_keys := false; newline_values := true; single_line := false; single_block := true |}
+      [S_; (PROP_FLAG, [120]%N); NL_; (BRACE_OPEN, []); (BRACE_CLOSE, [])] = OForeign F_ROOT0
+  /\ run all_guarded ko_default [S_; (PROP_FLAG, [120]%N); NL_; (BRACE_OPEN, []); (BRACE_CLOSE, []); S_; S_; (PROP_FLAG, [33; 120]%N); NL_] = OOk
+  /\ cfg_safe all_guarded = true.
+Proof. vm_compute. repeat split; reflexivity. Qed.
